@@ -166,7 +166,11 @@ func runCorr(stream string, cfg Config) {
 		if tooManyHangs() {
 			return
 		}
-		fmt.Fprintf(w, "%s\t%s\n", c, observeLine(c))
+		// the case line is flushed before the implementation runs, so that a fatal runtime error
+		// (stack exhaustion, concurrent map write) can be attributed to the case that caused it
+		fmt.Fprintf(w, "%s\t", c)
+		w.Flush()
+		fmt.Fprintf(w, "%s\n", observeLine(c))
 		n++
 	})
 	fmt.Fprintln(os.Stderr, "corr", stream, "cases", strconv.Itoa(n))
